@@ -246,6 +246,18 @@ func boolAtomOrConst(in *Interp, name string, a, b Val, f func(x, y string) bool
 			}
 		}
 	}
+	// two symbolic strings: every one of these predicates holds when the
+	// strings are equal (keeps valuations consistent: eq=equal with
+	// HasPrefix=false is not a state of the world)
+	if sa, ok := a.(SymStr); ok {
+		if sb, ok := b.(SymStr); ok && sa.Key != sb.Key {
+			if in.ch.eqStr("s:"+sa.Key, "s:"+sb.Key) {
+				return kBool(true)
+			}
+		} else if ok {
+			return kBool(true)
+		}
+	}
 	return LazyBool{name + "(" + keyOf(a) + "," + keyOf(b) + ")"}
 }
 
